@@ -820,7 +820,13 @@ impl Oracle for ReplyOracle {
                         }
                     } else if let Some(why) = reject {
                         verdict = 3;
-                        let deferred = func == refapp::FUNC_READ && was_unsol_pending;
+                        // (a READ that arrives during a solicited confirm wait ends that wait; an unsolicited series may then begin
+                        // before the READ is looked at, which defers it just the same)
+                        let unsol_began = step
+                            .received
+                            .iter()
+                            .any(|rx| rx.bytes.len() >= 2 && rx.bytes[1] == refapp::FUNC_UNSOL_RESPONSE);
+                        let deferred = func == refapp::FUNC_READ && (was_unsol_pending || unsol_began);
                         if why != "function-not-implemented" && b.len() > 4 {
                             self.nontrivial = self.nontrivial
                                 || refapp::decode_objects(&b[2..], func != refapp::FUNC_READ)
